@@ -9,7 +9,10 @@ Lines (tab separated), written by `harness/c15_*_test.go`:
   hooks.env.single    scenario blocker reach returned plain
   hooks.env.single    scenario blocker reach returned sweep cap counter batch offsets
   hooks.env.single    scenario blocker reach returned uloop n i kind wrote atomic remaining
-returned ∈ ok | panic;   hooks.post.single   scenario blocker reach ok vaultStepsWrapped halfAppliedVaults borrowStepsWrapped halfAppliedBorrows itemsV itemsB topUnits [detail]
+returned ∈ ok | panic;   hooks.natural.single scenario blocker unit site writesBeforeFailure stateEqualsSkipped laterUnitsSame [stores]
+  hooks.steps.single  scenario blocker reach nItems nFailing nLate stateEqualsAllFailingSkipped detail [stores]
+  hooks.sub.single    scenario blocker substep outcome wrote
+  hooks.post.single   scenario blocker reach ok vaultStepsWrapped halfAppliedVaults borrowStepsWrapped halfAppliedBorrows itemsV itemsB topUnits [detail]
 parents: csv of unit numbers (0 = top level) or `-`; commits: string of 0/1 per unit or `-`.
 
 DIFF = the model's prediction differs from the real blocker; MON = the property is false on the real behaviour:
@@ -105,6 +108,21 @@ def handle (st : St) (seq : String) (f : List String) : St × List String :=
       (st, d ++ monIf seq (returned != "ok" && reach = "1") "no_panic" ++ monIf seq (atomic = "0" && reach = "1") "unit_atomic" ++
         monIf seq (remaining = "0" && reach = "1") "remaining_run")
     | _, _ => (st, [s!"BAD\t{seq}\tuloop line"])
+  | "hooks.natural.single" :: scen :: blocker :: unit :: site :: writes :: stateEq :: later :: rest =>
+    -- a unit that reported failure by itself (returned error / panic, late or early): `wrapped_unit_atomic` +
+    -- `failing_unit_skipped` ⇒ the run equals the run with that unit skipped
+    if stateEq = "1" && later = "1" then (st, []) else
+      (st, [s!"DIFF\t{seq}\t{scen} {blocker} unit {unit} ({site}) failed after {writes} writes: model=invisible impl=stateEq {stateEq}, later {later} {rest}"] ++
+        monIf seq (stateEq != "1") "unit_atomic" ++ monIf seq (later != "1") "remaining_run")
+  | "hooks.steps.single" :: scen :: blocker :: reach :: n :: nFail :: nLate :: stateEq :: rest =>
+    -- per-item steps that report failure when run by themselves must be invisible after the real blocker:
+    -- model = the run with all of them skipped (iterated `failing_unit_skipped`)
+    if stateEq = "1" then (st, []) else
+      (st, [s!"DIFF\t{seq}\t{scen} {blocker}: {nFail} of {n} item steps report failure ({nLate} after writes): model=state of the run with those units skipped impl=differs {rest}"] ++
+        monIf seq (reach = "1") "unit_atomic")
+  | "hooks.sub.single" :: _scen :: _blocker :: _name :: out :: wrote :: _ =>
+    -- information only (hooks that log a sub-step's error and go on; reviewed in Props/C15 `swallowReviewed`)
+    if (out = "ok" || out = "err" || out = "panic") && (wrote = "0" || wrote = "1") then (st, []) else (st, [s!"BAD\t{seq}\tsub line"])
   | "hooks.post.single" :: scen :: blocker :: reach :: _ret :: vaultW :: halfV :: borrowW :: halfB :: rest =>
     -- per-item oracle of the liquidation sweeps: a step that runs as a wrapped unit cannot be half-applied
     match parseNat? halfV, parseNat? halfB with
